@@ -12,6 +12,10 @@ certain to be the same value at the use:
   * ANY value, one use: the one use is in the statement that immediately follows the binding and is the first thing that
     statement evaluates (nothing with an effect can come between the binding and the use).
 
+  * READ-ONLY value (names, attribute and subscript loads, operators -- no call), any number of uses, all of them in the
+    statement that immediately follows the binding, with nothing evaluated before the last use that could change what the
+    value reads (a store through an attribute or subscript, a call on or with one of the objects it reads, an await).
+
 Everything else stays a local: a value read from state that the module mutates (`start = self.size`) is a snapshot, and the rules
 that depend on snapshots need to see it.  Locals of the tree the rules were written against (BASELINE below) also stay: rules
 find several of them by role through their binding statement.  The expression substituted keeps its own source positions (the
@@ -253,6 +257,93 @@ class _Fn:
         walk(root)
         return found[0]
 
+    # ---- third form: a read-only value, all of whose uses lie in the statement that follows, with nothing in between that
+    # could change what it reads
+    def readonly(self, e: ast.AST) -> bool:
+        """Built from fixed names, attribute and subscript loads, constants and operators (no call): evaluating it has no
+        effect, and its value changes only if something stores to / calls into the objects it reads."""
+        if isinstance(e, ast.Constant):
+            return True
+        if isinstance(e, ast.Name):
+            return isinstance(e.ctx, ast.Load) and self._fixed_name(e.id)
+        if isinstance(e, ast.Attribute):
+            return isinstance(e.ctx, ast.Load) and self.readonly(e.value)
+        if isinstance(e, ast.Subscript):
+            return isinstance(e.ctx, ast.Load) and self.readonly(e.value) and not isinstance(e.slice, ast.Slice) and self.readonly(e.slice)
+        if isinstance(e, ast.BinOp):
+            return self.readonly(e.left) and self.readonly(e.right)
+        if isinstance(e, ast.UnaryOp):
+            return self.readonly(e.operand)
+        if isinstance(e, ast.BoolOp):
+            return all(self.readonly(v) for v in e.values)
+        if isinstance(e, ast.Compare):
+            return self.readonly(e.left) and all(self.readonly(c) for c in e.comparators)
+        return False
+
+    def _window_ok(self, st: ast.stmt, name: str, roots: Set[str], n_uses: int) -> bool:
+        """All `n_uses` reads of `name` in `st` come, in evaluation order, before anything that could change what the value
+        reads: a store / delete through an attribute or subscript, a call on one of its roots or one that is handed a root,
+        an await / yield."""
+        seen = [0]
+        bad = [False]
+
+        def ev(n: ast.AST) -> None:
+            if bad[0] or seen[0] >= n_uses:
+                return
+            if isinstance(n, ast.Name):
+                if n.id == name and isinstance(n.ctx, ast.Load):
+                    seen[0] += 1
+                return
+            if isinstance(n, (ast.FunctionDef, ast.AsyncFunctionDef, ast.Lambda, ast.ClassDef, ast.GeneratorExp)):
+                bad[0] = True
+                return
+            if isinstance(n, (ast.Assign, ast.AnnAssign, ast.AugAssign)):
+                if n.value is not None:
+                    ev(n.value)
+                tg = n.targets if isinstance(n, ast.Assign) else [n.target]
+                for t in tg:
+                    if seen[0] < n_uses and not isinstance(t, ast.Name):
+                        bad[0] = True
+                return
+            if isinstance(n, ast.Delete):
+                bad[0] = True
+                return
+            if isinstance(n, (ast.Await, ast.Yield, ast.YieldFrom, ast.With, ast.AsyncWith, ast.Try, ast.While, ast.For, ast.AsyncFor)):
+                bad[0] = True
+                return
+            if isinstance(n, ast.Call):
+                ev(n.func)
+                for a in n.args:
+                    ev(a)
+                for k in n.keywords:
+                    ev(k.value)
+                if seen[0] < n_uses:
+                    recv = n.func.value if isinstance(n.func, ast.Attribute) else None
+                    if (isinstance(recv, ast.Name) and recv.id in roots) or any(isinstance(a, ast.Name) and a.id in roots for a in list(n.args) + [k.value for k in n.keywords]):
+                        bad[0] = True
+                return
+            if isinstance(n, ast.If):
+                ev(n.test)
+                # the arms are alternatives: each is judged from the same count
+                base = seen[0]
+                tot = 0
+                for arm in (n.body, n.orelse):
+                    seen[0] = base
+                    for b in arm:
+                        ev(b)
+                    tot = max(tot, seen[0])
+                # every use must have been reached without an effect on SOME arm order; conservatively require the uses of
+                # both arms together to be all the uses that remain
+                uses_body = sum(1 for b in n.body for x in ast.walk(b) if isinstance(x, ast.Name) and x.id == name and isinstance(x.ctx, ast.Load))
+                uses_else = sum(1 for b in n.orelse for x in ast.walk(b) if isinstance(x, ast.Name) and x.id == name and isinstance(x.ctx, ast.Load))
+                seen[0] = base + uses_body + uses_else if not bad[0] else seen[0]
+                return
+            for c in ast.iter_child_nodes(n):
+                ev(c)
+
+        ev(st)
+        return not bad[0] and seen[0] >= n_uses
+
     def _reads(self, nodes: List[ast.stmt], name: str) -> int:
         return sum(1 for st in nodes for x in ast.walk(st) if isinstance(x, ast.Name) and x.id == name and isinstance(x.ctx, ast.Load))
 
@@ -281,6 +372,9 @@ class _Fn:
                         ok = True
                     elif total == 1 and rest and self._reads(rest[:1], tgt) == 1 and self._first_evaluated(rest[0], tgt):
                         ok = True
+                    elif rest and self._reads(rest[:1], tgt) == total and self.readonly(val):
+                        roots = {x.id for x in ast.walk(val) if isinstance(x, ast.Name)}
+                        ok = self._window_ok(rest[0], tgt, roots, total)
                 if ok:
                     sub = _Replace(tgt, val)
                     body[i + 1:] = [sub.visit(x) for x in rest]
